@@ -46,6 +46,8 @@ LIB = ROOT / "lib"  # files the library opens
 CALLER = ROOT / "caller"  # files the caller opens (PIL-image sources)
 SHADOW = ROOT / "shadow"  # files of the paired (opposite cache setting) iterator
 REF = ROOT / "ref"  # files of the reference renders
+ALT = ROOT / "alt"  # same file names, OTHER content: served as /alt/<name> (second URL image)
+REFALT = ROOT / "refalt"  # reference copies of ALT
 TMPD = ROOT / "tmp"  # tempfile.tempdir: the library's _TEMP_DIR is created in here
 
 NFRAMES = 3
@@ -91,7 +93,7 @@ FIXTURES = {
 def build_fixtures(seed: int):
     from PIL import Image
 
-    for d in (LIB, CALLER, SHADOW, REF, TMPD):
+    for d in (LIB, CALLER, SHADOW, REF, TMPD, ALT, REFALT):
         shutil.rmtree(d, ignore_errors=True)
         d.mkdir(parents=True, exist_ok=True)
     rng = random.Random(seed)
@@ -117,13 +119,37 @@ def build_fixtures(seed: int):
     for name in os.listdir(LIB):
         for d in (CALLER, SHADOW, REF):
             shutil.copy(LIB / name, d / name)
+    # other pictures under the same file names
+    for name, fmt in (("anim.gif", "GIF"), ("anim.webp", "WEBP")):
+        frames = []
+        for i in range(NFRAMES):
+            f = Image.new("RGB", SRC_PX, ((200 - 60 * i) % 256, (35 + 90 * i) % 256, (140 + 50 * i) % 256))
+            for x in range(SRC_PX[0]):
+                f.putpixel((x, (2 * i + x + 1) % SRC_PX[1]), (0, 0, 0))
+            frames.append(f)
+        kw = dict(save_all=True, append_images=frames[1:], duration=40, loop=0)
+        if fmt == "WEBP":
+            kw["lossless"] = True
+        frames[0].save(ALT / name, fmt, **kw)
+    alt = Image.new("RGBA", SRC_PX, (230, 60, 200, 255))
+    for x in range(SRC_PX[0]):
+        alt.putpixel((x, (x + 2) % SRC_PX[1]), (5, 5, 90, 255))
+    alt.save(ALT / "static.png")
+    alt.convert("RGB").save(ALT / "staticrgb.png")
+    for name in os.listdir(ALT):
+        shutil.copy(ALT / name, REFALT / name)
+        if (ALT / name).read_bytes() == (LIB / name).read_bytes():
+            raise MachineryError(f"fixture alt/{name} does not differ from {name}")
 
 
 # ----------------------------------------------------------------------------- http
 class _Handler(http.server.BaseHTTPRequestHandler):
     def do_GET(self):  # noqa: N802
         name = self.path.lstrip("/")
-        p = LIB / name
+        base = LIB
+        if name.startswith("alt/"):
+            base, name = ALT, name[4:]
+        p = base / name
         if "/" in name or not p.is_file():
             self.send_response(404)
             self.send_header("Content-Length", "0")
@@ -396,19 +422,19 @@ class Table:
         self.srcframes: dict[str, list] = {}
         self.errors: dict[tuple, str] = {}  # what real code did wrong while rendering references
 
-    def _ref_image(self, cfg, anim: bool):
+    def _ref_image(self, cfg, anim: bool, alt: bool = False):
         cls = image_class(cfg["style"])
         name = FIXTURES[cfg["anim_fx"] if anim else cfg["static_fx"]][0]
-        return cls.from_file(str(REF / name))
+        return cls.from_file(str((REFALT if alt else REF) / name))
 
-    def table(self, cfg, anim: bool, spec: str, cur_term: int) -> dict[str, tuple[int, str]]:
+    def table(self, cfg, anim: bool, spec: str, cur_term: int, alt: bool = False) -> dict[str, tuple[int, str]]:
         """Reverse table for (config, animated?, spec).  The reference renders run REAL code: if
         they raise, or no longer tell frames / sizes apart, that is the code's doing (the fixture
         itself is checked without term-image in build_fixtures) - the problem is remembered in
         ``self.errors`` and shows up as an undecodable / wrongly decoded frame, never as exit 2."""
         from term_image.image import Size
 
-        key = (cfg_key(cfg), anim, spec)
+        key = (cfg_key(cfg), anim, spec) + (("alt",) if alt else ())
         if key in self.tabs:
             return self.tabs[key]
         if SEAMS.armed:
@@ -418,7 +444,7 @@ class Table:
         saved_tag = SEAMS.owner_tag
         img = None
         try:
-            img = self._ref_image(cfg, anim)
+            img = self._ref_image(cfg, anim, alt)
             for rs in ("A", "B", "d1", "d2"):
                 if rs in FIXED:
                     apply_env(cfg, cur_term)
@@ -432,7 +458,7 @@ class Table:
                         img.seek(i)
                     before = dict(SEAMS.calls)
                     s = format(img, spec)
-                    if rs == "A":
+                    if rs == "A" and not alt:
                         self.steps[key + (i,)] = {
                             k: v - before.get(k, 0) for k, v in SEAMS.calls.items()
                         }
@@ -521,8 +547,9 @@ class Table:
             raise MachineryError("format() with a native-animation spec is not decoded")
         return self.table(cfg, anim, spec, cur_term).get(s, (-2, "?"))
 
-    def error_for(self, cfg, anim: bool, spec: str) -> str | None:
-        return self.errors.get((cfg_key(cfg), anim, cfg["s1"] if spec.endswith("+A") else spec))
+    def error_for(self, cfg, anim: bool, spec: str, alt: bool = False) -> str | None:
+        return self.errors.get((cfg_key(cfg), anim, cfg["s1"] if spec.endswith("+A") else spec)
+                               + (("alt",) if alt else ()))
 
 
 TABLE = Table()
@@ -531,7 +558,7 @@ TABLE = Table()
 # ----------------------------------------------------------------------------- the world
 def new_action(op: str, **kw) -> dict:
     a = dict(op=op, kind="", anim=False, outcome="", spec="", rep=0, cached=False, pos=0,
-             size="", term=0, animated=False, fault="none", during="")
+             size="", term=0, animated=False, fault="none", during="", pvar="")
     a.update(kw)
     return a
 
@@ -571,6 +598,9 @@ class World:
         self.caller_fp = None
         self.shadow = None
         self.shadow_it = None
+        self.peer = None  # second URL image alive at the same time
+        self.peer_anim = False
+        self.peer_alt = False
         self.it_spec = ""
         SEAMS.tracked = []
         SEAMS.owner_tag = "call"
@@ -717,6 +747,8 @@ class World:
         op = a["op"]
         a = dict(a)
         a.setdefault("during", "")
+        a.setdefault("pvar", "")
+        peer_frame = [False]
         during_fired = [False]
         frame_s: list[str | None] = [None]
         nframes = [0]
@@ -804,6 +836,20 @@ class World:
                 self.image = None
                 self.kind, self.anim = "none", False
                 self._close_caller()
+            elif op == "peeropen":
+                # same last path component as the first image's URL: the very same URL, or
+                # another path serving another picture
+                fx = FIXTURES[self.cfg["anim_fx"] if self.anim else self.cfg["static_fx"]][0]
+                self.peer_anim, self.peer_alt = self.anim, a["pvar"] == "other"
+                url = f"{self.server.base}/{'alt/' if self.peer_alt else ''}{fx}"
+                self.peer = self.cls.from_url(url, **self._size_kw("A"))
+            elif op == "peerformat":
+                frame_s[0] = format(self.peer, self.cfg["s1"])
+                peer_frame[0] = True
+            elif op == "peerclose":
+                self.peer.close()
+            elif op == "peerdrop":
+                self.peer = None
             else:
                 raise MachineryError(f"unknown operation {op}")
 
@@ -853,8 +899,13 @@ class World:
         if frame_s[0] is not None and res == "ok":
             spec = (self._concrete_spec(a["spec"]) if op == "format" else
                     self.it_spec if op == "next" else self.cfg["s1"])
-            frame = TABLE.decode(self.cfg, self.anim, spec, frame_s[0], self.term, iterator=op == "next")
-            ref_err = TABLE.error_for(self.cfg, self.anim, spec)
+            if peer_frame[0]:  # decoded against the PEER's own picture
+                frame = TABLE.table(self.cfg, self.peer_anim, spec, self.term, alt=self.peer_alt).get(
+                    frame_s[0], (-2, "?"))
+                ref_err = TABLE.error_for(self.cfg, self.peer_anim, spec, alt=self.peer_alt)
+            else:
+                frame = TABLE.decode(self.cfg, self.anim, spec, frame_s[0], self.term, iterator=op == "next")
+                ref_err = TABLE.error_for(self.cfg, self.anim, spec)
             if op == "next":
                 res = "frame"
         tell_same = True
@@ -945,12 +996,12 @@ class World:
         """Tear the world down (not an observed operation)."""
         with warnings.catch_warnings():
             warnings.simplefilter("ignore")
-            for obj in (self.it, self.shadow_it, self.image, self.shadow):
+            for obj in (self.it, self.shadow_it, self.image, self.shadow, self.peer):
                 with contextlib.suppress(Exception):
                     if obj is not None:
                         obj.close()
             self.it = self.shadow_it = None
-            self.image = self.shadow = None
+            self.image = self.shadow = self.peer = None
             with contextlib.suppress(Exception):
                 self._close_caller()
             gc.collect()
